@@ -543,6 +543,65 @@ fn gen_chord(rng: &mut Rng, alpha: &[Value], pool: &[Vec<Value>]) -> Vec<Value> 
     }
 }
 
+/// Chord lengths around the integer constants of keys.rs as it is NOW (a length counter or a depth bound kept in
+/// a narrow integer shows at its limit), together with the limits of the narrow integer types themselves.
+fn chord_length_bounds() -> Vec<usize> {
+    let mut b: Vec<usize> = source_boundaries(&["src/keys.rs"], 1100).into_iter().map(|v| v as usize).filter(|&v| v >= 7).collect();
+    for v in [127usize, 128, 129, 255, 256, 257] {
+        b.push(v);
+    }
+    b.sort_unstable();
+    b.dedup();
+    b
+}
+
+/// A history around ONE long chord of `len` keys: it is registered (with a sibling that differs in the last key and
+/// a short chord), looked up whole, at proper prefixes (short and as long as the chord allows) and one key too
+/// far, listed, typed key by key (when `typed`), superseded by a prefix, re-registered, carried over by override.
+fn long_chord_program(rng: &mut Rng, len: usize, typed: bool) -> Value {
+    let alpha = alphabet();
+    let chord: Vec<Value> = (0..len).map(|_| rng.pick(&alpha).clone()).collect();
+    let mut sibling = chord.clone();
+    let last = sibling.pop().unwrap_or(json!(["Char", "97", 0]));
+    sibling.push(alpha.iter().find(|k| **k != last).cloned().unwrap_or(json!(["Char", "120", 0])));
+    let mut longer = chord.clone();
+    longer.push(rng.pick(&alpha).clone());
+    let mut ops: Vec<Value> = vec![];
+    ops.push(json!({"op": "reg", "m": 0, "c": [alpha[0].clone(), alpha[1].clone()], "v": 1}));
+    ops.push(json!({"op": "reg", "m": 0, "c": chord, "v": 2}));
+    ops.push(json!({"op": "reg", "m": 0, "c": sibling, "v": 3}));
+    ops.push(json!({"op": "each", "m": 0}));
+    let mut cuts: Vec<usize> = vec![1, 2, len / 2, len.saturating_sub(2), len.saturating_sub(1)];
+    cuts.retain(|&c| c >= 1 && c < len);
+    cuts.dedup();
+    for who in [&chord, &sibling, &longer] {
+        ops.push(json!({"op": "lookup", "m": 0, "c": who}));
+    }
+    for c in cuts.iter() {
+        ops.push(json!({"op": "lookup", "m": 0, "c": chord[..*c].to_vec()}));
+    }
+    if typed {
+        for k in chord.iter() {
+            ops.push(json!({"op": "handle", "m": 0, "k": k}));
+        }
+    }
+    // carried over to the other map, looked up there
+    ops.push(json!({"op": "override", "d": 1, "s": 0}));
+    ops.push(json!({"op": "lookup", "m": 1, "c": chord}));
+    ops.push(json!({"op": "lookup", "m": 1, "c": chord[..len - 1].to_vec()}));
+    // superseded by a proper prefix, then registered again
+    ops.push(json!({"op": "reg", "m": 0, "c": chord[..len - 1].to_vec(), "v": 4}));
+    ops.push(json!({"op": "lookup", "m": 0, "c": chord}));
+    ops.push(json!({"op": "lookup", "m": 0, "c": sibling}));
+    ops.push(json!({"op": "reg", "m": 0, "c": chord, "v": 5}));
+    ops.push(json!({"op": "lookup", "m": 0, "c": chord}));
+    ops.push(json!({"op": "lookup", "m": 0, "c": chord[..len - 1].to_vec()}));
+    ops.push(json!({"op": "clear", "m": 0}));
+    ops.push(json!({"op": "lookup", "m": 0, "c": chord}));
+    ops.push(json!({"op": "each", "m": 1}));
+    json!({"kind": "map", "ops": ops})
+}
+
 fn gen_map(rng: &mut Rng) -> Value {
     let mut alpha = if rng.chance(1, 2) { alphabet() } else { random_alphabet(rng) };
     // a key that occurs inside chords but never first: it begins no bound chord
@@ -927,11 +986,22 @@ pub fn generate(rng: &mut Rng, n: usize, tier: &str) -> Vec<Value> {
             v.push(json!({"kind": "print", "what": "chord", "keys": [["F", "12", mode], ["Up", "", 511 - mode]]}));
         }
     }
+    // one long chord per boundary length (typed in key by key up to 300 keys: the state is part of every answer)
+    let bounds = chord_length_bounds();
+    for &len in bounds.iter() {
+        v.push(long_chord_program(rng, len, len <= 300 && len % 2 == 0));
+    }
     let fixed = v.len();
     while v.len() < fixed + n {
         match rng.below(20) {
             0..=11 => {
-                let m = gen_map(rng);
+                let m = if rng.chance(1, 150) {
+                    let len = *rng.pick(&bounds);
+                    let len = (len + rng.below(3) as usize).saturating_sub(1).max(2);
+                    long_chord_program(rng, len, len <= 140)
+                } else {
+                    gen_map(rng)
+                };
                 if rng.chance(1, 6) {
                     let mut twin = m.clone();
                     twin["kind"] = json!("map_literal");
